@@ -282,6 +282,11 @@ def build_harness(R, pkg="rt", timeout=3600):
     lock_src = os.path.join(REPO, "Cargo.lock")
     t = time.time()
     with BuildLock("cargo"):
+        link = os.path.join(VERIF, ".repo")  # path deps go through this (git-ignored) symlink
+        if os.path.realpath(link) != os.path.realpath(REPO):
+            if os.path.islink(link):
+                os.unlink(link)
+            os.symlink(REPO, link)
         dst = os.path.join(HARNESS, "Cargo.lock")
         if not os.path.exists(dst):
             shutil.copy(lock_src, dst)
